@@ -30,3 +30,36 @@ Definition read_head (f : fstate) : option N :=
    abstracted to one byte each. *)
 Definition decode_snapshot (f : fstate) : option (list N) :=
   match f with Absent => None | Content b => Some b end.
+
+(* commits.Store.getSnapshot as it is now: a snapshot file without entries is
+   treated as absent (None = fs.ErrNotExist: the caller rebuilds the snapshot
+   from the commit objects); putSnapshot does not store an empty snapshot. *)
+Definition get_snapshot (f : fstate) : option (list N) :=
+  match decode_snapshot f with
+  | Some [] => None
+  | r => r
+  end.
+Definition put_snapshot_states (old : fstate) (new : bytes) : list fstate :=
+  match new with [] => [old] | _ => put_states old new end.
+
+(* journal.Queue.ReadHead as it is now (lake/journal/queue.go): HEAD is a hint.
+   A HEAD that is absent is an error; one that does not parse (torn by a
+   create-then-fill put) is replaced by TAIL-1; then Exists(entry id+1) is
+   probed while it succeeds.  [present id] says whether entry [id] exists;
+   fuel bounds the probe (the real loop ends at the first missing entry). *)
+Fixpoint probe (present : N -> bool) (fuel : nat) (id : N) : N :=
+  match fuel with
+  | O => id
+  | S f => if present (id + 1)%N then probe present f (id + 1)%N else id
+  end.
+
+Definition journal_read_head (head : fstate) (tail : N) (present : N -> bool) (fuel : nat) : option N :=
+  match head with
+  | Absent => None
+  | Content _ =>
+    let start := match read_head head with Some h => h | None => (tail - 1)%N end in
+    Some (probe present fuel start)
+  end.
+
+(* a journal whose entries are exactly tail..n *)
+Definition entries_between (tail n : N) (id : N) : bool := (tail <=? id)%N && (id <=? n)%N.
